@@ -17,9 +17,10 @@ import (
 
 // Op is one access of a critical section.
 type Op struct {
-	V int    `json:"v"`           // shared variable 0 (x) or 1 (y)
-	K string `json:"k"`           // "R" | "W"
-	F string `json:"f,omitempty"` // value written: "tag" unique value | "inc"/"dec" last value read of V +-1 | "copy" last value read of the other variable
+	V int    `json:"v"`           // shared variable 0 (x), 1 (y) or 2 (t, function-valued: [1 |-> 100, 2 |-> 200])
+	K string `json:"k"`           // "R" | "W" | "A" (await FALSE on the first attempt of the section: the section aborts here once)
+	F string `json:"f,omitempty"` // value written: "tag" unique value | "inc"/"dec" last value read of the location +-1 | "copy" last value read of the other variable
+	I int    `json:"i,omitempty"` // V = t only: 0 = the whole variable, k>0 = element t[k] accessed through Index()
 }
 
 type Section []Op
@@ -37,14 +38,53 @@ type Config struct {
 	MaxAborts int      `json:"max_aborts"` // once this many attempts have aborted (chosen or forced timeouts) no further alternatives are explored: the rest of the execution follows the default (non-preemptive) schedule
 }
 
-var varNames = []string{"x", "y"}
-var initial = []int32{10, 20}
+var varNames = []string{"x", "y", "t"}
+
+// locations of the plain-map reference model: x, y, t[1], t[2]
+var locNames = []string{"x", "y", "t[1]", "t[2]"}
+var initial = []int32{10, 20, 100, 200}
+
+const tVar, nLocs = 2, 4
+
+func locsOf(v int) []int {
+	if v == tVar {
+		return []int{2, 3}
+	}
+	return []int{v}
+}
+
+func initialValue(v int) tla.Value {
+	if v == tVar {
+		return tFunc(initial[2], initial[3])
+	}
+	return tla.MakeNumber(initial[v])
+}
+
+func tFunc(a, b int32) tla.Value {
+	return tla.MakeRecord([]tla.RecordField{{Key: tla.MakeNumber(1), Value: tla.MakeNumber(a)}, {Key: tla.MakeNumber(2), Value: tla.MakeNumber(b)}})
+}
+
+func tElems(v tla.Value) (a, b int32, ok bool) {
+	defer func() {
+		if recover() != nil {
+			ok = false
+		}
+	}()
+	return v.ApplyFunction(tla.MakeNumber(1)).AsNumber(), v.ApplyFunction(tla.MakeNumber(2)).AsNumber(), true
+}
 
 func (o Op) String() string {
-	if o.K == "R" {
-		return "R" + varNames[o.V]
+	n := varNames[o.V]
+	if o.I > 0 {
+		n = fmt.Sprintf("%s[%d]", n, o.I)
 	}
-	return "W" + varNames[o.V] + ":" + o.F
+	switch o.K {
+	case "A":
+		return "await-false-once"
+	case "R":
+		return "R" + n
+	}
+	return "W" + n + ":" + o.F
 }
 
 func (s Script) String() string {
@@ -76,7 +116,7 @@ func usesVars(scripts []Script) int {
 	for _, s := range scripts {
 		for _, sec := range s {
 			for _, o := range sec {
-				if o.V+1 > n {
+				if o.K != "A" && o.V+1 > n {
 					n = o.V + 1
 				}
 			}
@@ -99,7 +139,7 @@ type ctxState struct {
 // makeArchetype builds a tiny MPCal archetype whose critical sections follow the script.
 // Every value written is decided from the values read in the same attempt, exactly as PGo-generated
 // code would compute it from its reads.
-func makeArchetype(name string, idx int, script Script, attempt func() int) distsys.MPCalArchetype {
+func makeArchetype(name string, idx0 int, script Script, attempt func() int) distsys.MPCalArchetype {
 	var secs []distsys.MPCalCriticalSection
 	label := func(i int) string {
 		if i >= len(script) {
@@ -109,37 +149,65 @@ func makeArchetype(name string, idx int, script Script, attempt func() int) dist
 	}
 	for i, sec := range script {
 		i, sec := i, sec
+		tries := 0
 		secs = append(secs, distsys.MPCalCriticalSection{Name: label(i), Body: func(iface distsys.ArchetypeInterface) error {
-			var last [2]tla.Value
-			var has [2]bool
+			tries++
+			var last [nLocs]tla.Value // last value read or written per location, within this attempt
+			var has [nLocs]bool
 			for k, o := range sec {
+				if o.K == "A" {
+					if tries == 1 {
+						return distsys.ErrCriticalSectionAborted // await FALSE
+					}
+					continue
+				}
 				h, err := iface.RequireArchetypeResourceRef(name + "." + varNames[o.V])
 				if err != nil {
 					return err
 				}
+				var idx []tla.Value
+				loc := o.V
+				if o.V == tVar && o.I > 0 {
+					idx = []tla.Value{tla.MakeNumber(int32(o.I))}
+					loc = 1 + o.I
+				}
+				whole := o.V == tVar && o.I == 0
 				if o.K == "R" {
-					v, err := iface.Read(h, nil)
+					v, err := iface.Read(h, idx)
 					if err != nil {
 						return err
 					}
-					last[o.V], has[o.V] = v, true
+					if whole {
+						if a, b, ok := tElems(v); ok {
+							last[2], has[2], last[3], has[3] = tla.MakeNumber(a), true, tla.MakeNumber(b), true
+						}
+					} else {
+						last[loc], has[loc] = v, true
+					}
 					continue
 				}
+				tag := int32(1000000 + idx0*100000 + attempt()*100 + i*10 + k)
 				var val tla.Value
 				switch {
-				case o.F == "inc" && has[o.V]:
-					val = tla.MakeNumber(last[o.V].AsNumber() + 1)
-				case o.F == "dec" && has[o.V]:
-					val = tla.MakeNumber(last[o.V].AsNumber() - 1)
-				case o.F == "copy" && has[1-o.V]:
+				case whole:
+					val = tFunc(tag, tag+50)
+				case o.F == "inc" && has[loc]:
+					val = tla.MakeNumber(last[loc].AsNumber() + 1)
+				case o.F == "dec" && has[loc]:
+					val = tla.MakeNumber(last[loc].AsNumber() - 1)
+				case o.F == "copy" && o.V < 2 && has[1-o.V]:
 					val = last[1-o.V]
 				default:
-					val = tla.MakeNumber(int32(1000000 + idx*100000 + attempt()*100 + i*10 + k))
+					val = tla.MakeNumber(tag)
 				}
-				if err := iface.Write(h, nil, val); err != nil {
+				if err := iface.Write(h, idx, val); err != nil {
 					return err
 				}
-				last[o.V], has[o.V] = val, true
+				if whole {
+					last[2], has[2], last[3], has[3] = tla.MakeNumber(tag), true, tla.MakeNumber(tag+50), true
+				} else {
+					last[loc], has[loc] = val, true
+				}
 			}
 			return iface.Goto(label(i + 1))
 		}})
@@ -156,12 +224,25 @@ func makeArchetype(name string, idx int, script Script, attempt func() int) dist
 	}
 }
 
-func decodeState(b []byte) (int32, error) {
-	var v tla.Value
-	if err := gob.NewDecoder(bytes.NewReader(b)).Decode(&v); err != nil {
-		return 0, err
+// decodeState decodes GetState() of variable v into the values of its locations.
+func decodeState(v int, b []byte) (out []int32, err error) {
+	var val tla.Value
+	if err := gob.NewDecoder(bytes.NewReader(b)).Decode(&val); err != nil {
+		return nil, err
 	}
-	return v.AsNumber(), nil
+	defer func() {
+		if x := recover(); x != nil {
+			err = fmt.Errorf("GetState of %s holds %v: %v", varNames[v], val, x)
+		}
+	}()
+	if v == tVar {
+		a, b, ok := tElems(val)
+		if !ok {
+			return nil, fmt.Errorf("GetState of t holds %v, not a function over {1,2}", val)
+		}
+		return []int32{a, b}, nil
+	}
+	return []int32{val.AsNumber()}, nil
 }
 
 // ---------------------------------------------------------------------------------------------
@@ -190,8 +271,8 @@ type Failure struct {
 	What string
 }
 
-func varIndex(res string) int {
-	for i, n := range varNames {
+func locIndex(res string) int {
+	for i, n := range locNames {
 		if n == res {
 			return i
 		}
@@ -223,8 +304,17 @@ func attempts(evs []bubble.Event) []*attempt {
 				a.aborted = true
 			}
 		case "read", "write":
-			if e.Err == "" && e.Has {
-				a.ops = append(a.ops, access{v: varIndex(e.Res), write: e.Op == "write", val: e.Val.AsNumber()})
+			if e.Err != "" || !e.Has {
+				break
+			}
+			if e.Res == "t" { // the whole function-valued variable: one access per element
+				if x, y, ok := tElems(e.Val); ok {
+					a.ops = append(a.ops, access{v: 2, write: e.Op == "write", val: x}, access{v: 3, write: e.Op == "write", val: y})
+				} else {
+					a.ops = append(a.ops, access{v: 2, write: e.Op == "write", val: -1}) // not a function over {1,2}: matches nothing
+				}
+			} else if l := locIndex(e.Res); l >= 0 {
+				a.ops = append(a.ops, access{v: l, write: e.Op == "write", val: e.Val.AsNumber()})
 			}
 		}
 	}
@@ -234,11 +324,8 @@ func attempts(evs []bubble.Event) []*attempt {
 // replay runs the committed attempts in the given order on a plain map; it returns the index of the
 // first attempt with a read the serial execution does not reproduce (-1 if none) and the final state.
 func replay(order []*attempt, nvars int, invariant bool) (bad int, badOp int, want int32, state []int32, invBroken string) {
-	state = append([]int32(nil), initial[:nvars]...)
-	sum := int32(0)
-	for _, v := range state {
-		sum += v
-	}
+	state = append([]int32(nil), initial...)
+	sum := state[0] + state[1]
 	for i, a := range order {
 		overlay := map[int]int32{}
 		for k, o := range a.ops {
@@ -258,10 +345,7 @@ func replay(order []*attempt, nvars int, invariant bool) (bad int, badOp int, wa
 			state[v] = x
 		}
 		if invariant && invBroken == "" {
-			s := int32(0)
-			for _, v := range state {
-				s += v
-			}
+			s := state[0] + state[1]
 			if s != sum {
 				invBroken = fmt.Sprintf("after the section %s of %s committed x+y = %d instead of %d", a.pc, a.who, s, sum)
 			}
@@ -375,12 +459,12 @@ func judge(cfg Config, evs []bubble.Event, final []int32) *Failure {
 				}
 			}
 		}
-		return &Failure{kind, fmt.Sprintf("no serial order consistent with real time explains the committed sections: in commit order, %s %s read %s=%d where the serial execution gives %d", a.who, a.pc, varNames[o.v], o.val, want)}
+		return &Failure{kind, fmt.Sprintf("no serial order consistent with real time explains the committed sections: in commit order, %s %s read %s=%d where the serial execution gives %d", a.who, a.pc, locNames[o.v], o.val, want)}
 	}
 	if inv != "" {
 		return &Failure{"invariant-broken", inv}
 	}
-	return &Failure{"final-state-mismatch", fmt.Sprintf("GetState() after all sections = %v but replaying the committed sections in commit order gives %v (an aborted section left a trace, or a committed write was lost)", final, state)}
+	return &Failure{"final-state-mismatch", fmt.Sprintf("GetState() after all sections (x, y, t[1], t[2]) = %v but replaying the committed sections in commit order gives %v (an aborted section left a trace, or a committed write was lost)", final, state)}
 }
 
 func renderEvents(evs []bubble.Event) []string {
